@@ -14,6 +14,15 @@
     ([C04_binds_frame_serial], [C04_binds_frame_parallel], [C04_binds_eval_frame]).
     The exclusion of CParity cutoffs is needed for this route ([eval] reads the HELD value of such
     a node: it is history dependent); templates are parity-free by [templates_ok].
+    [C04_binds_values_pfree]: it is enough that no CParity cutoff is READ by the evaluation of the
+    node in question ([pfree s n]: none among the nodes reachable from [n] through declared
+    inputs, bind inputs and the outer references of bind cases); CParity cutoffs elsewhere in the
+    graph do not matter.  OPEN: nodes below a CParity cutoff.  The held value of such a cutoff is
+    a fold over its runs, and the parallel stabilizer may run it twice (K10/K11); since the fold
+    is idempotent the values agree if every run sees the final input and the node runs under one
+    stabilizer iff it runs under the other -- which I believe (the first of two runs reads inputs
+    that were registered and up to date when the block started) but have not proved; replaying
+    the K10 history with a CParity cutoff as the twice-run node shows no divergence.
     Proofs: ParBindC04.v. *)
 From incr Require Import Base Heap HeapSpec EngineDefs Engine EngineRun EngineWf Spec SpecProofs EngineLemmas
      EngineInv EngineInvProofs PassInv PassProofs PassBind PassBindProofs PassBindSwap PassBindSwapProofs
@@ -26,6 +35,14 @@ Theorem C04_binds_values : forall s sS sP,
     valueOf sS n = valueOf sP n.
 Proof. exact C04_binds_values_proof. Qed.
 Print Assumptions C04_binds_values.
+
+Theorem C04_binds_values_pfree : forall s sS sP,
+  Inv s -> ValInvB s -> Tplain s -> templates_ok s = true ->
+  stabilize [] false s = Ok (sS, None) -> parStabilize [] s = Ok (sP, None) ->
+  forall n, has s n -> pfree s n -> inGraph (nd sS n) = true -> inGraph (nd sP n) = true -> notLhs s n = true ->
+    valueOf sS n = valueOf sP n.
+Proof. exact C04_binds_values_pfree_proof. Qed.
+Print Assumptions C04_binds_values_pfree.
 
 Theorem C04_binds_observers : forall s sS sP,
   Inv s -> ValInvB s -> Tplain s -> templates_ok s = true -> noParity s ->
